@@ -672,7 +672,9 @@ def t5_partial_fit_specials(ctx: Ctx):
         raise ShapeError('_bound_if_fits: the intersection format is not built in one place')
     kw = {k.arg: k.value for k in builds[0].keywords}
     flags = ('has_pos_inf', 'has_neg_inf', 'has_nan', 'has_neg_zero')
-    it = Interp({})
+    # (properties of the format class that the function reads -- `bound` -- are evaluated from the class's own source)
+    fmt_meths = {s.name: s for s in ctx.repo.cls(FMT, 'AbstractFormat').body if isinstance(s, ast.FunctionDef)}
+    it = Interp({}, methods=fmt_meths)
     n = 0
     bad = None
     for ef in product((False, True), repeat=4):
@@ -714,8 +716,8 @@ def t5_partial_fit_specials(ctx: Ctx):
 
     def choose(exact, scope, overflow):
         env = {'exact': exact, 'scope_af': scope, 'resolved': Obj('Context', **({'overflow': overflow} if overflow else {})), 'OV': OVM, 'OverflowMode': OVM,
-               'getattr': lambda o, a, d=None: o.fields.get(a, d)}
-        Interp({}).run_stmts(lead, env)
+               'getattr': lambda o, a, d=None: o.fields.get(a, d), 'max': max, 'min': min, 'abs': abs}
+        Interp({}, methods=fmt_meths).run_stmts(lead, env)
         return env
     bad = None
     rows = 0
@@ -737,19 +739,23 @@ def t5_partial_fit_specials(ctx: Ctx):
     # an infinity clips, and the intersection is its image.)
     bad = None
     rows = 0
+    # The scopes: a symmetric one, and the two shapes wrapping scopes really have -- two's complement (one more value below
+    # zero than above: the exact range of `-y` leaves it at the top by one while its magnitude stays the scope's) and
+    # unsigned (nothing below zero: `x - 1` leaves it at the bottom with a magnitude well inside).
     for mode in ('wrap', 'saturate', 'overflow', None):
-        for ep, en in product((Fraction(5), Fraction(10), Fraction(20)), (Fraction(0), Fraction(-10), Fraction(-20))):
-            exact = Obj('AbstractFormat', prec=6, exp=0, pos_bound=ep, neg_bound=en)
-            scope = Obj('AbstractFormat', prec=8, exp=0, pos_bound=Fraction(10), neg_bound=Fraction(-10))
-            env = choose(exact, scope, mode)
-            rows += 1
-            leaves = ep > 10 or en < -10
-            want = (Fraction(-10), Fraction(10)) if (mode == 'wrap' and leaves) else (max(en, Fraction(-10)), min(ep, Fraction(10)))
-            if (env['neg_bound'] > want[0] or env['pos_bound'] < want[1]) and bad is None:
-                bad = (f'exact range [{en}, {ep}] into a scope [-10, 10] that {"wraps" if mode == "wrap" else "clips (" + str(mode) + ")"}: '
-                       f'the stated bounds are [{env["neg_bound"]}, {env["pos_bound"]}], the image reaches [{want[0]}, {want[1]}]')
-    ctx.check(bad is None and rows >= 36, ANA, chooser[0], q, f'the finite bounds of a partly fitting rounding cover what a wrapping scope brings back from its other end ({rows} rows)',
-              (bad or 'table shrank') + ' (x in UINT8, `with SINT8: y = x + 45`: inferred [0, 127], x = 100 gives -111)')
+        for slo, shi in ((Fraction(-10), Fraction(10)), (Fraction(-10), Fraction(9)), (Fraction(0), Fraction(10))):
+            for ep, en in product((Fraction(5), Fraction(10), Fraction(20)), (Fraction(0), Fraction(-1), Fraction(-10), Fraction(-20))):
+                exact = Obj('AbstractFormat', prec=6, exp=0, pos_bound=ep, neg_bound=en)
+                scope = Obj('AbstractFormat', prec=8, exp=0, pos_bound=shi, neg_bound=slo)
+                env = choose(exact, scope, mode)
+                rows += 1
+                leaves = ep > shi or en < slo
+                want = (slo, shi) if (mode == 'wrap' and leaves) else (max(en, slo), min(ep, shi))
+                if (env['neg_bound'] > want[0] or env['pos_bound'] < want[1]) and bad is None:
+                    bad = (f'exact range [{en}, {ep}] into a scope [{slo}, {shi}] that {"wraps" if mode == "wrap" else "clips (" + str(mode) + ")"}: '
+                           f'the stated bounds are [{env["neg_bound"]}, {env["pos_bound"]}], the image reaches [{want[0]}, {want[1]}]')
+    ctx.check(bad is None and rows >= 144, ANA, chooser[0], q, f'the finite bounds of a partly fitting rounding cover what a wrapping scope brings back from its other end ({rows} rows)',
+              (bad or 'table shrank') + ' (x in UINT8, `with SINT8: y = x + 45`: inferred [0, 127], x = 100 gives -111; `with SINT8: z = -y`: inferred [-127, 127], y = -128 gives -128)')
 
 
 def t6_captured_values(ctx: Ctx):
@@ -1021,6 +1027,11 @@ MUTANTS = [
     Mutant('logb-bound-tested-against-the-wrong-context', ANA, "        resolved = self._resolve_active_ctx(d.site.expr)\n        if not round_is_identity(exact_logb(fmt), resolved):", "        resolved = REAL\n        if not round_is_identity(exact_logb(fmt), resolved):", 'C14.T3'),
     Mutant('wrap-noticed-past-the-upper-end-only', ANA, "            exact.pos_bound > scope_af.pos_bound\n            or exact.neg_bound < scope_af.neg_bound\n", "            exact.pos_bound > scope_af.pos_bound\n", 'C14.T5',
            'x in SINT8, with UINT8: y = x - 45 comes back from the top'),
+    Mutant('wrap-noticed-by-magnitude-only', ANA, "            exact.pos_bound > scope_af.pos_bound\n            or exact.neg_bound < scope_af.neg_bound\n", "            exact.bound > scope_af.bound\n", 'C14.T5',
+           'seeded change C14g: y in SINT8, with SINT8: z = -y -- the exact range [-127, 128] has the magnitude of the scope [-128, 127] and leaves it at the top'),
+    Mutant('wrap-test-through-the-magnitude-property-as-well', ANA, "            exact.pos_bound > scope_af.pos_bound\n            or exact.neg_bound < scope_af.neg_bound\n",
+           "            exact.pos_bound > scope_af.pos_bound\n            or exact.neg_bound < scope_af.neg_bound\n            or exact.bound > scope_af.bound\n", 'C14.T5',
+           'a redundant third disjunct read through the class\'s `bound` property: behaviour unchanged, the rule stays silent', expect='silent'),
     Mutant('merge-points-unified-for-plain-lists-only', 'fpy2/analysis/alias.py', "            if not _carries_list(self.types.by_def.get(d)):\n                continue\n            for i in same_object_defs(d):",
            "            if not isinstance(self.types.by_def.get(d), ListType):\n                continue\n            for i in same_object_defs(d):", 'C14.G2',
            'seeded change C14e: t = (xs, 0); if c: t = (ys, 1); a, k = t; a[0] = x -- xs[0] keeps the literal set'),
